@@ -9,6 +9,7 @@ import ast
 import copy
 import json
 
+from .. import defgen
 from .. import gen as G
 from .. import irutil, kinds
 from ..astkinds import AstKindProp
@@ -36,6 +37,43 @@ def call_peril(dataset_name="mnist", epochs=3):
 '''
 
 
+AST_OPS = ["parse_function", "parse_function", "emit_class_call", "emit_class", "emit_function", "emit_argparse", "emit_docstring"]
+BODIES = [
+    "data = load({p0})\n    return data",
+    "c = {p0} * 2\n    return c + len(str({p0}))",
+    "for i in range(3):\n        {p0} = step({p0}, i)\n    return {p0}",
+    "return 5",
+    "return 'done'",
+    "return ({p0}, 1)",
+    "print({p0})",
+    "if {p0}:\n        return None\n    return compute({p0}={p0})",
+]
+
+
+def gen_shared_src(r, i):
+    """a user-written function (three docstring styles, partly documented, optional trailing sections, optional
+    return line with or without a type) with a body; the summary is unique per case so that nothing the process
+    may have remembered about an earlier text applies"""
+    f = defgen.gen_def(r, allow_kwonly=False, allow_kwargs=False, method=False)
+    f["summary"] = "Summary of case %d %s." % (i, G.prose(r, 1, 3, punct=False, rich=False))
+    doc = defgen.docstring(f, 4)
+    ret = r.choice(["none", "prose", "typed"])
+    if ret != "none":
+        if f["style"] == "rest":
+            extra = "    :returns: the outcome of it\n" + ("    :rtype: ```int```\n" if ret == "typed" else "")
+        elif f["style"] == "numpydoc":
+            extra = "    Returns\n    -------\n    %s\n        the outcome of it\n" % ("int" if ret == "typed" else "object")
+        else:
+            extra = "    Returns:\n      %sthe outcome of it\n" % ("int: " if ret == "typed" else "")
+        # before a trailing section when there is one? keep it simple: right before the closing quotes
+        head, sep, tail = doc.rpartition('    """')
+        doc = head + extra + sep + tail
+    p0 = f["params"][0]["name"]
+    body = r.choice(BODIES).format(p0=p0)
+    src = "def call_peril(%s):\n%s    %s\n" % (defgen.signature_src(f), doc, body)
+    return src, f["style"] + ("+trailer" if f.get("trailer") and f["style"] != "rest" else "")
+
+
 def emit_text(kind, ir, opts):
     return kinds.to_source(kind, kinds.emit_nocopy(kind, ir, opts))
 
@@ -45,25 +83,43 @@ class C13(AstKindProp):
     quick_cases = 500
     thorough_cases = 15000
     rule = (
-        "case = (IR with/without return entry, with/without a carried function body; a history of 1-4 emit calls drawn "
-        "with repetition from rest/numpydoc/class/function/method/argparse, all given the SAME description object) or "
-        "(a function AST with a body; a history of parse/emit calls sharing that tree). Each emitter call is one "
-        "model-correspondence operation (post-call description). Non-trivial = history of length >= 2; distinct by "
-        "(IR, history)."
+        "case = (IR with/without return entry - plain, with a default, untyped with a default, None default, prose with its "
+        "own default sentence; a history of 1-4 emit calls drawn with repetition from rest/numpydoc/class/function/method/"
+        "argparse, all given the SAME description object) or (a function AST with a body - the fixed one or a generated "
+        "user-written definition in rest/numpydoc/google style, partly documented, with trailing sections, with or without "
+        "a typed return line, unique summary per case; a history of 2-4 parse/emit calls sharing that tree and the "
+        "description parsed from it). Every call is compared with the same call on a fresh copy AND with the first result "
+        "the same call gave on a fresh copy earlier in the history. Each emitter call is one model-correspondence operation "
+        "(post-call description). Non-trivial = history of length >= 2; distinct by (input, history)."
     )
 
     def gen(self, r, i, run):
-        if r.random() < 0.25:
-            hist = [r.choice(["parse_function", "emit_class_call", "emit_function", "parse_function", "emit_argparse"]) for _ in range(r.randint(2, 4))]
+        if r.random() < 0.35:
+            hist = [r.choice(AST_OPS) for _ in range(r.randint(2, 4))]
             run.dist["family"]["shared-ast"] += 1
-            return {"family": "ast", "history": hist}
-        irj = G.gen_ir(r, rich=r.random() < 0.4, p_typ=1.0, p_doc=1.0, returns=r.random() < 0.5)
+            if r.random() < 0.3:
+                return {"family": "ast", "history": hist}
+            src, style = gen_shared_src(r, i)
+            run.dist["ast_style"][style] += 1
+            return {"family": "ast", "history": hist, "src": src}
+        irj = G.gen_ir(r, rich=r.random() < 0.4, p_typ=r.choice([1.0, 1.0, 0.8]), p_doc=1.0, returns=r.random() < 0.6)
         # keep to descriptions every emitter accepts
         for _, p in irj["params"]:
             if isinstance(p.get("default"), str) and p["default"].startswith("```"):
                 del p["default"]
-        if irj["returns"] and "default" in irj["returns"]:
-            del irj["returns"]["default"]
+        if irj["returns"]:
+            shape = r.choice(["plain", "plain", "default", "untyped-default", "none-default", "own-sentence"])
+            run.dist["return_shape"][shape] += 1
+            if shape == "plain":
+                irj["returns"].pop("default", None)
+            elif shape == "untyped-default":
+                irj["returns"].pop("typ", None)
+                irj["returns"]["default"] = r.choice(["```c + len(b)```", 5, "done"])
+            elif shape == "none-default":
+                irj["returns"]["default"] = "```(None)```"
+            elif shape == "own-sentence":
+                irj["returns"].pop("default", None)
+                irj["returns"]["doc"] = (irj["returns"].get("doc") or "the result").rstrip(".") + ", defaults to 5"
         hist = [r.choice(EMITS) for _ in range(r.randint(1, 4))]
         run.dist["family"]["shared-ir"] += 1
         run.dist["history_len"][len(hist)] += 1
@@ -113,7 +169,7 @@ class C13(AstKindProp):
                 self._emit(kind, ir, c["opts"])
                 impl = {"ok": irutil.canon_ir(irutil.ir_to_json(ir))}
             except Exception as e:
-                impl = {"raises": exc_kind(e)}
+                continue  # a description this kind does not accept at all: not C13's matter (see the kind's own property)
             res.append(("effect_" + kind, {"op": "effect", "ir": c["ir"]}, impl))
         return res
 
@@ -127,12 +183,16 @@ class C13(AstKindProp):
             return self.oracle_ast(c, run)
         fails = []
         shared = self.py_ir(c["ir"])
+        first = {}
         for step, kind in enumerate(c["history"]):
             fresh = self.py_ir(c["ir"])
             try:
                 want = self._emit(kind, fresh, c["opts"])
             except Exception as e:
                 return fails  # the description is not emittable in this kind at all: not C13's matter
+            if first.setdefault(kind, want) != want:
+                fails.append({"what": "the same conversion of a fresh copy gives a different artefact later in the history (state kept outside the inputs)", "step": step, "kind": kind, "history": c["history"], "got": want[:600], "want": first[kind][:600]})
+                break
             try:
                 got = self._emit(kind, shared, c["opts"])
             except Exception as e:
@@ -144,34 +204,48 @@ class C13(AstKindProp):
         return fails
 
     # ---- shared AST --------------------------------------------------------------------------
-    def oracle_ast(self, c, run):
+    def _ast_op(self, op, tree, ir):
+        """-> (result text, ir): one call of the history on `tree` / on the description parsed from it"""
         from doctrans import emit as E
         from doctrans import parse as P
 
-        tree = ast.parse(BODY_SRC).body[0]
+        if op == "parse_function" or ir is None:
+            ir = P.function(tree)
+            if op == "parse_function":
+                return _ir_key(ir), ir
+        if op == "emit_class_call":
+            return kinds.to_source("class", E.class_(ir, emit_call=True)), ir
+        if op == "emit_class":
+            return kinds.to_source("class", E.class_(ir)), ir
+        if op == "emit_function":
+            return kinds.to_source("function", E.function(ir, function_name="call_peril", function_type="static")), ir
+        if op == "emit_docstring":
+            return E.docstring(ir), ir
+        return kinds.to_source("argparse", E.argparse_function(ir, function_name="call_peril")), ir
+
+    def oracle_ast(self, c, run):
+        src = c.get("src") or BODY_SRC
+        tree = ast.parse(src).body[0]
         original = ast.dump(tree)
         fails = []
         ir = None
+        first = {}
         for step, op in enumerate(c["history"]):
-            fresh_tree = ast.parse(BODY_SRC).body[0]
+            fresh_tree = ast.parse(src).body[0]
             try:
-                if op == "parse_function":
-                    ir = P.function(tree)
-                    want = P.function(fresh_tree)
-                    a, b = _ir_key(ir), _ir_key(want)
-                else:
-                    if ir is None:
-                        ir = P.function(tree)
-                    fresh_ir = P.function(fresh_tree)
-                    if op == "emit_class_call":
-                        a = kinds.to_source("class", E.class_(ir, emit_call=True))
-                        b = kinds.to_source("class", E.class_(fresh_ir, emit_call=True))
-                    elif op == "emit_function":
-                        a = kinds.to_source("function", E.function(ir, function_name="call_peril", function_type="static"))
-                        b = kinds.to_source("function", E.function(fresh_ir, function_name="call_peril", function_type="static"))
-                    else:
-                        a = kinds.to_source("argparse", E.argparse_function(ir, function_name="call_peril"))
-                        b = kinds.to_source("argparse", E.argparse_function(fresh_ir, function_name="call_peril"))
+                b, _ = self._ast_op(op, fresh_tree, None)
+            except Exception as e:
+                if ir is None:
+                    try:
+                        ir = self._ast_op("parse_function", tree, None)[1]
+                    except Exception:
+                        return fails  # this definition cannot be parsed at all: not C13's matter
+                continue  # this conversion does not accept the definition even alone: not C13's matter
+            if first.setdefault(op, b) != b:
+                fails.append({"what": "the same conversion of a fresh tree gives a different result later in the history (state kept outside the inputs)", "step": step, "op": op, "history": c["history"], "got": b[:700], "want": first[op][:700]})
+                break
+            try:
+                a, ir = self._ast_op(op, tree, ir)
             except Exception as e:
                 fails.append({"what": "call on the shared tree raised", "step": step, "op": op, "exc": exc_kind(e)})
                 break
